@@ -183,6 +183,19 @@ theorem castsDominate_fails : ¬ castsDominate_statement false := by
   revert this
   decide
 
+/-! ## run-time shape of the stand-in buffer -/
+
+/-- **The stand-in buffer has the run-time shape of the source**: for every shape of the cast type (any rank, any mix
+of static and dynamic dimensions) and every run-time shape of that type, allocating with one `memref.dim(source, i)`
+per dynamic dimension `i` (the position of the dimension in the shape) gives a buffer of exactly the source's run-time
+shape - so copy-in and copy-out connect buffers of equal shapes. -/
+theorem standInShape_correct (shape : List (Option Nat)) (rt : List Nat) (h : ShapeOf shape rt) :
+    standInShape shape rt = rt :=
+  allocShape_dynIdx rt shape rt 0 h (fun j => by simp)
+
+example : standInShape [some 16, none] [16, 5] = [16, 5] := by decide
+example : dynIdx [none, some 8, none] 0 = [0, 2] := by decide
+
 /-! ## copies around the stand-in buffer -/
 
 /-- What "delivers the right data to every consumer" means for one application of `RealizeMemrefCasts`
